@@ -1,5 +1,8 @@
 import C2paModel.Lemmas.C13Top
 import C2paModel.Lemmas.C13Pipe
+import C2paModel.Lemmas.C13Count
+import C2paModel.Lemmas.C13PipeRef
+import C2paModel.Lemmas.C13Env
 /-
 C13 — property theorems. The statement (properties.jsonl):
 
@@ -321,8 +324,9 @@ def NoCounterOverflowFull : Prop :=
     hashModel alg data hr isExcl buf c ≠ .panic .counter
 
 /-- The `u32` progress counters do not overflow as long as the run needs at most `u32::MAX`
-callbacks (one per chunk). At the production chunk size 2^28 this is every stream shorter
-than 2^60 bytes with fewer than 2^31 entries. -/
+callbacks (one per chunk). The hypothesis is about the piece list; `no_counter_overflow_input`
+replaces it by a bound computed from the inputs, `no_counter_overflow_production` instantiates
+that at the production chunk size 2^28 (streams < 2^59 bytes, < 2^30 entries). -/
 theorem no_counter_overflow_partial (alg : String) (data : List UInt8)
     (hr : Option (List HashRange)) (isExcl : Bool) (buf : Nat) (c : Option Nat)
     (hlen : data.length ≤ u64Max) (hb : 0 < buf)
@@ -466,18 +470,8 @@ the two actors that reaches the end of the range leaves the hasher, back on the 
 having absorbed `h0 ++ c ++ c₂ ++ … ++ cₙ` — the chunks in stream order. -/
 theorem pipeline_schedule_independent (h0 c : List UInt8) (cs : List (List UInt8)) (s : PState)
     (hr : PReach (pInit h0 c cs) s) (hd : s.done = true) :
-    s.mainH = some (h0 ++ c ++ cs.flatten) ∧ s.worker = none ∧ s.chan = none := by
-  have hv := hr.view_eq
-  have hsh := hr.shape (PShape.holding cs c h0)
-  cases hsh with
-  | finished h =>
-    simp [PState.view, pInit] at hv
-    exact ⟨by rw [hv, List.append_assoc], rfl, rfl⟩
-  | holding us c' h => simp at hd
-  | spawned u us h c' => simp at hd
-  | hashed u us h => simp at hd
-  | readAhead us nx h c' => simp at hd
-  | both us nx h => simp at hd
+    s.mainH = some (h0 ++ c ++ cs.flatten) ∧ s.worker = none ∧ s.chan = none :=
+  pipeline_done_mainH h0 c cs s hr hd
 
 /-- In every reachable state the hasher has exactly one owner and nothing absorbed or pending
 is lost or reordered; a state that is not finished can always move (no deadlock). -/
@@ -486,6 +480,422 @@ theorem pipeline_invariant (h0 c : List UInt8) (cs : List (List UInt8)) (s : PSt
     s.view = some (h0 ++ c ++ cs.flatten) ∧ (s.done = false → ∃ t, PStep s t) := by
   refine ⟨?_, fun hd => (hr.shape (PShape.holding cs c h0)).progress hd⟩
   rw [hr.view_eq]; simp [PState.view, pInit]
+
+/-! ### the hand-off system is the chunk loop's hand-off
+
+`PStep` is not a free-standing toy: the sequential `chunkLoop` (what `hashModel` runs, what the
+differential run compares with the code) is one schedule of it, and every other completed
+schedule on the same chunks ends with the same hasher content. -/
+
+/-- **Termination**: every hand-off can be completed (the `s.done` hypothesis of
+`pipeline_schedule_independent` is reachable from every initial state). -/
+theorem pipeline_terminates (h0 c : List UInt8) (cs : List (List UInt8)) :
+    ∃ s, PReach (pInit h0 c cs) s ∧ s.done = true :=
+  pipeline_reaches_done cs h0 c
+
+/-- **Refinement**: when the sequential chunk loop succeeds, the chunks it read after the entry
+chunk are `loopChunks …` (each the result of a successful `read_exact`, non-empty, ≤ `buf`
+bytes), a completed schedule of the hand-off system on these chunks exists, and *every*
+completed schedule ends with the hasher content the sequential loop ends with. -/
+theorem chunkLoop_refines_pipeline {data : List UInt8} {buf T : Nat} {c : Option Nat}
+    (fuel pos : Nat) (chunk : List UInt8) (left : Nat) (st st' : St)
+    (h : chunkLoop data buf T c fuel pos chunk left st = .ok st') :
+    (∃ s, PReach (pInit st.absorbed chunk (loopChunks data buf fuel pos (left - chunk.length))) s ∧
+      s.done = true) ∧
+    ∀ s, PReach (pInit st.absorbed chunk (loopChunks data buf fuel pos (left - chunk.length))) s →
+      s.done = true → s.mainH = some st'.absorbed :=
+  chunkLoop_pipeline fuel pos chunk left st st' h
+
+theorem runPiece_data_inv {data : List UInt8} {buf T : Nat} {c : Option Nat} {p : Piece}
+    {st st' : St} (h : runPiece data buf T c p st = .ok st') (hm : p.marker = false) :
+    ∃ st1 chunk, tick T c st = .ok st1 ∧
+      readExact data p.lo (min (p.hi - p.lo + 1) buf) = some chunk ∧
+      chunkLoop data buf T c (p.hi - p.lo + 1) (p.lo + min (p.hi - p.lo + 1) buf) chunk
+        (p.hi - p.lo + 1) st1 = .ok st' := by
+  unfold runPiece at h
+  cases ht : tick T c st with
+  | error o => simp [ht] at h
+  | ok st1 =>
+    simp only [ht] at h
+    by_cases h1 : p.hi < p.lo
+    · simp [h1] at h
+    · simp only [h1, if_false] at h
+      by_cases h2 : p.hi - p.lo + 1 > u64Max
+      · simp [h2] at h
+      · simp only [h2, if_false, hm, Bool.false_eq_true] at h
+        cases hr : readExact data p.lo (min (p.hi - p.lo + 1) buf) with
+        | none => simp [hr] at h
+        | some chunk =>
+          simp only [hr] at h
+          exact ⟨st1, chunk, rfl, rfl, h⟩
+
+theorem runPieces_split {data : List UInt8} {buf T : Nat} {c : Option Nat} :
+    ∀ (pre : List Piece) (p : Piece) (post : List Piece) (st st' : St),
+      runPieces data buf T c (pre ++ p :: post) st = .ok st' →
+      ∃ sa sb, runPieces data buf T c pre st = .ok sa ∧ runPiece data buf T c p sa = .ok sb ∧
+        runPieces data buf T c post sb = .ok st' := by
+  intro pre
+  induction pre with
+  | nil =>
+    intro p post st st' h
+    simp only [List.nil_append] at h
+    unfold runPieces at h
+    cases hp : runPiece data buf T c p st with
+    | error o => simp [hp] at h
+    | ok sb =>
+      simp only [hp] at h
+      exact ⟨st, sb, rfl, hp, h⟩
+  | cons q pre ih =>
+    intro p post st st' h
+    simp only [List.cons_append] at h
+    unfold runPieces at h
+    cases hq : runPiece data buf T c q st with
+    | error o => simp [hq] at h
+    | ok s1 =>
+      simp only [hq] at h
+      obtain ⟨sa, sb, a1, a2, a3⟩ := ih p post s1 st' h
+      refine ⟨sa, sb, ?_, a2, a3⟩
+      unfold runPieces
+      simp only [hq]
+      exact a1
+
+/-- **Every range of a successful run**: for each data range `p` of the piece list, with the
+hasher having absorbed the bytes of the pieces before it, the chunks the loop reads are the
+first chunk and `loopChunks …`; a completed schedule of the hand-off exists and every completed
+schedule hands back a hasher that has absorbed exactly the bytes of the range after what was
+there before. The digest returned is therefore the same for every interleaving of the main
+thread and the workers. -/
+theorem run_refines_pipeline (alg : String) (data : List UInt8) (hr : Option (List HashRange))
+    (isExcl : Bool) (buf : Nat) (c : Option Nat) (abs : List UInt8) (prog : List (Nat × Nat))
+    (h : hashModel alg data hr isExcl buf c = .ok abs prog) :
+    ∃ ps, buildPieces data.length hr isExcl = .ok ps ∧ abs = ps.flatMap (pieceBytes data) ∧
+      ∀ pre p post, ps = pre ++ p :: post → p.marker = false →
+        (∃ s, PReach (pInit (pre.flatMap (pieceBytes data))
+            ((data.drop p.lo).take (min (p.hi - p.lo + 1) buf))
+            (loopChunks data buf (p.hi - p.lo + 1) (p.lo + min (p.hi - p.lo + 1) buf)
+              (p.hi - p.lo + 1 - min (p.hi - p.lo + 1) buf))) s ∧ s.done = true) ∧
+        ∀ s, PReach (pInit (pre.flatMap (pieceBytes data))
+            ((data.drop p.lo).take (min (p.hi - p.lo + 1) buf))
+            (loopChunks data buf (p.hi - p.lo + 1) (p.lo + min (p.hi - p.lo + 1) buf)
+              (p.hi - p.lo + 1 - min (p.hi - p.lo + 1) buf))) s → s.done = true →
+          s.mainH = some (pre.flatMap (pieceBytes data) ++ pieceBytes data p) := by
+  obtain ⟨_, _, ps, T, st, hb, _, hrun, ha, _⟩ := hashModel_ok_inv h
+  obtain ⟨a, _, _⟩ := runPieces_ok ps {} st hrun
+  refine ⟨ps, hb, by rw [ha, a]; rfl, ?_⟩
+  intro pre p post hps hm
+  subst hps
+  obtain ⟨sa, sb, r1, r2, _⟩ := runPieces_split pre p post {} st hrun
+  obtain ⟨a1, _, _⟩ := runPieces_ok pre {} sa r1
+  obtain ⟨a2, _, _⟩ := runPiece_ok r2
+  obtain ⟨st1, chunk, t1, t2, t3⟩ := runPiece_data_inv r2 hm
+  obtain ⟨hn, _, hl⟩ := readExact_some t2
+  obtain ⟨e1, _⟩ := tick_ok t1
+  have hsa : sa.absorbed = pre.flatMap (pieceBytes data) := by rw [a1]; rfl
+  have key := chunkLoop_pipeline _ _ _ _ _ _ t3
+  rw [hl, e1, hsa, hn] at key
+  rw [a2, hsa] at key
+  exact key
+
+/-! ### the progress counters, from the inputs alone -/
+
+/-- **No counter overflow, input-level**: when `callbackBound` (a function of the stream
+length, the number of entries, the mode and the chunk size) fits `u32`, the progress counters
+do not overflow. -/
+theorem no_counter_overflow_input (alg : String) (data : List UInt8)
+    (hr : Option (List HashRange)) (isExcl : Bool) (buf : Nat) (c : Option Nat)
+    (hlen : data.length ≤ u64Max) (hb : 0 < buf)
+    (hbound : callbackBound data.length hr isExcl buf ≤ u32Max) :
+    hashModel alg data hr isExcl buf c ≠ .panic .counter := by
+  by_cases h1 : 1 ≤ data.length
+  · apply no_counter_overflow_partial alg data hr isExcl buf c hlen hb
+    intro ps hps
+    exact Nat.le_trans (chunkCount_le_bound hps h1 hb) hbound
+  · have h2 : data.length < 1 := by omega
+    unfold hashModel
+    by_cases hs : supported alg = true
+    · simp [hs, h2]
+    · have hs' : supported alg = false := by simpa using hs
+      simp [hs']
+
+/-- … in particular at the production chunk size 2^28 (`MAX_HASH_BUF`), in exclusion mode, for
+every stream shorter than 2^59 bytes with fewer than 2^30 entries. -/
+theorem no_counter_overflow_production (alg : String) (data : List UInt8)
+    (hr : Option (List HashRange)) (c : Option Nat)
+    (hlen : data.length < 576460752303423488)
+    (hn : ∀ l, hr = some l → l.length < 1073741824) :
+    hashModel alg data hr true 268435456 c ≠ .panic .counter := by
+  apply no_counter_overflow_input alg data hr true 268435456 c (by unfold u64Max; omega) (by omega)
+  unfold callbackBound u32Max
+  cases hr with
+  | none => simp only; omega
+  | some l =>
+    cases l with
+    | nil => simp only; omega
+    | cons a t =>
+      have := hn (a :: t) rfl
+      simp only [if_true]
+      omega
+
+/-- **Completeness, input-level**: a supported algorithm, a non-empty stream, every entry
+inside the data, `callbackBound` within `u32`, and a cancellation point (if any) beyond the
+bound ⇒ a digest is returned, of the pieces' bytes, after exactly `T` callbacks. -/
+theorem accepted_of_within_input (alg : String) (data : List UInt8) (hr : List HashRange)
+    (isExcl : Bool) (buf : Nat) (c : Option Nat) (halg : supported alg = true)
+    (h1 : 1 ≤ data.length) (hlen : data.length ≤ u64Max) (hb : 0 < buf)
+    (hall : ∀ x ∈ hr, x.start + x.length ≤ data.length)
+    (hbound : callbackBound data.length (some hr) isExcl buf ≤ u32Max)
+    (hc : ∀ k, c = some k → k = 0 ∨ callbackBound data.length (some hr) isExcl buf < k) :
+    ∃ ps, buildPieces data.length (some hr) isExcl = .ok ps ∧
+      hashModel alg data (some hr) isExcl buf c =
+        .ok (ps.flatMap (pieceBytes data)) (ticks (chunkCount buf ps) (chunkCount buf ps)) := by
+  obtain ⟨ps0, hps0⟩ := buildPieces_of_within hr isExcl hlen hall
+  have := outcome_cases alg data (some hr) isExcl buf c hlen hb
+  simp only at this
+  have hne := stage_not_early (c := c) halg h1 hlen hb ps0 hps0 _ (hashModel_stage ..)
+  rcases this with h | h | h | ⟨ps, hbd, ⟨_, h⟩ | ⟨n, _, h0, hn, hcn⟩ | ⟨h, _⟩⟩
+  · exact absurd (Or.inl h) hne
+  · exact absurd (Or.inr (Or.inl h)) hne
+  · exact absurd (Or.inr (Or.inr h)) hne
+  · have := chunkCount_le_bound hbd h1 hb; omega
+  · have := chunkCount_le_bound hbd h1 hb
+    rcases hc n hcn with hz | hz <;> omega
+  · exact ⟨ps, hbd, h⟩
+
+/-- **Exclusion hashing, existence and value**: every range inside the data and the callback
+bound within `u32` ⇒ the run returns a digest and it is the digest of the specification. -/
+theorem excl_complete (alg : String) (data : List UInt8) (hr : List HashRange) (buf : Nat)
+    (halg : supported alg = true) (h1 : 1 ≤ data.length) (hlen : data.length ≤ u64Max)
+    (hb : 0 < buf) (hne : hr ≠ []) (hall : ∀ x ∈ hr, x.start + x.length ≤ data.length)
+    (hbound : data.length / buf + 2 * hr.length + 1 ≤ u32Max) :
+    ∃ prog, hashModel alg data (some hr) true buf none = .ok (exclSpec data hr) prog := by
+  have hcb : callbackBound data.length (some hr) true buf ≤ u32Max := by
+    cases hr with
+    | nil => exact absurd rfl hne
+    | cons a t => simpa [callbackBound] using hbound
+  obtain ⟨ps, _, h⟩ := accepted_of_within_input alg data hr true buf none halg h1 hlen hb hall hcb
+    (fun k hk => by cases hk)
+  have := excl_digest alg data hr buf none _ _ hne h
+  exact ⟨_, by rw [h, this]⟩
+
+/-- **Inclusion hashing, existence and value.** -/
+theorem incl_complete (alg : String) (data : List UInt8) (hr : List HashRange) (buf : Nat)
+    (halg : supported alg = true) (h1 : 1 ≤ data.length) (hlen : data.length ≤ u64Max)
+    (hb : 0 < buf) (hne : hr ≠ []) (hall : ∀ x ∈ hr, x.start + x.length ≤ data.length)
+    (hbound : hr.length * (data.length / buf + 2) ≤ u32Max) :
+    ∃ prog, hashModel alg data (some hr) false buf none = .ok (inclSpec data hr) prog := by
+  have hcb : callbackBound data.length (some hr) false buf ≤ u32Max := by
+    cases hr with
+    | nil => exact absurd rfl hne
+    | cons a t => simpa [callbackBound] using hbound
+  obtain ⟨ps, _, h⟩ := accepted_of_within_input alg data hr false buf none halg h1 hlen hb hall hcb
+    (fun k hk => by cases hk)
+  have := incl_digest alg data hr buf none _ _ hne h
+  exact ⟨_, by rw [h, this]⟩
+
+/-- **Chunk-size independence of acceptance, input-level.** -/
+theorem chunk_independent_ok_input (alg : String) (data : List UInt8)
+    (hr : Option (List HashRange)) (isExcl : Bool) (b1 b2 : Nat) (a1 : List UInt8)
+    (p1 : List (Nat × Nat)) (hlen : data.length ≤ u64Max) (hb2 : 0 < b2)
+    (hbound : callbackBound data.length hr isExcl b2 ≤ u32Max)
+    (h1 : hashModel alg data hr isExcl b1 none = .ok a1 p1) :
+    ∃ p2, hashModel alg data hr isExcl b2 none = .ok a1 p2 := by
+  obtain ⟨_, hd, _⟩ := hashModel_ok_inv h1
+  exact chunk_independent_ok alg data hr isExcl b1 b2 a1 p1 hlen hb2
+    (fun ps hps => Nat.le_trans (chunkCount_le_bound hps hd hb2) hbound) h1
+
+/-- **A cancellation point beyond the last callback never fires**: the run with `cancel = k`,
+`k` greater than the number of callbacks of the uncancelled run, returns the same result. -/
+theorem cancel_beyond_count (alg : String) (data : List UInt8) (hr : Option (List HashRange))
+    (isExcl : Bool) (buf k : Nat) (abs : List UInt8) (prog : List (Nat × Nat))
+    (hlen : data.length ≤ u64Max) (hb : 0 < buf)
+    (h : hashModel alg data hr isExcl buf none = .ok abs prog) (hk : prog.length < k) :
+    hashModel alg data hr isExcl buf (some k) = .ok abs prog := by
+  obtain ⟨halg, hd, ps0, _, _, hps0, _, _, _, _⟩ := hashModel_ok_inv h
+  have o1 := outcome_cases alg data hr isExcl buf none hlen hb
+  simp only at o1
+  rw [h] at o1
+  have o2 := outcome_cases alg data hr isExcl buf (some k) hlen hb
+  simp only at o2
+  have hne := stage_not_early (c := some k) halg hd hlen hb ps0 hps0 _ (hashModel_stage ..)
+  rcases o1 with h' | h' | h' | ⟨ps, hbd, ⟨h', _⟩ | ⟨n, h', _⟩ | ⟨h', hcc⟩⟩ <;> try cases h'
+  rcases o2 with g | g | g | ⟨ps', hbd', ⟨_, g⟩ | ⟨n, _, _, hn, hcn⟩ | ⟨g, _⟩⟩
+  · exact absurd (Or.inl g) hne
+  · exact absurd (Or.inr (Or.inl g)) hne
+  · exact absurd (Or.inr (Or.inr g)) hne
+  · rw [hbd] at hbd'; cases hbd'; omega
+  · rw [hbd] at hbd'; cases hbd'
+    simp only [ticks_length] at hk
+    cases hcn; omega
+  · rw [hbd] at hbd'; cases hbd'; exact g
+
+/-! ### the order of the exclusion entries does not matter -/
+
+theorem included_perm (n : Nat) {a b : List HashRange} (h : a.Perm b) :
+    included n a = included n b := by
+  funext x; unfold included; rw [excluded_perm h]
+
+theorem exclSpec_perm (data : List UInt8) {a b : List HashRange} (h : a.Perm b) :
+    exclSpec data a = exclSpec data b := by
+  have hi := included_perm data.length h
+  have hm : (markersOf a).Perm (markersOf b) := h.filterMap _
+  unfold exclSpec
+  apply flatMap_congr'
+  intro x _
+  have hc : markerCopies data.length a x = markerCopies data.length b x := by
+    unfold markerCopies between includedBelow includedAbove
+    rw [hi, hm.count_eq, hm.contains_eq]
+  rw [hc, hi]
+
+/-- **Permutation invariance** (exclusion mode): two successful runs on entry lists that are
+permutations of each other (any chunk sizes, any cancellation points) absorbed the same bytes.
+(Inclusion mode hashes "in range order", where entries with equal start keep their input
+order, so it is invariant only up to that order: `range_order`.) -/
+theorem excl_perm_invariant (alg : String) (data : List UInt8) (hr hr' : List HashRange)
+    (b1 b2 : Nat) (c1 c2 : Option Nat) (a1 a2 : List UInt8) (p1 p2 : List (Nat × Nat))
+    (hp : hr.Perm hr')
+    (h1 : hashModel alg data (some hr) true b1 c1 = .ok a1 p1)
+    (h2 : hashModel alg data (some hr') true b2 c2 = .ok a2 p2) : a1 = a2 := by
+  by_cases hne : hr = []
+  · subst hne
+    have : hr' = [] := List.nil_perm.1 hp
+    subst this
+    rw [whole_digest alg data _ true b1 c1 a1 p1 (Or.inr rfl) h1,
+      whole_digest alg data _ true b2 c2 a2 p2 (Or.inr rfl) h2]
+  · have hne' : hr' ≠ [] := fun e => hne (by subst e; exact List.perm_nil.1 hp)
+    rw [excl_digest alg data hr b1 c1 a1 p1 hne h1, excl_digest alg data hr' b2 c2 a2 p2 hne' h2,
+      exclSpec_perm data hp]
+
+/-! ### markers: where they contribute, and the decision about the hashed span
+
+The property text says markers contribute "at their positions". The code (and therefore
+`exclSpec`) hashes a marker offset `x` only when `x` lies in the hashed span (`inSpan`: byte `x`
+is hashed, or `x` lies strictly between the first and the last hashed byte). `marker_exact` is
+the exact statement for that rule; `marker_contributes` is its positive half without the
+distinctness hypothesis; `marker_outside_span_dropped` is a concrete input on which the
+unconditional reading fails (`markers_unconditional_false`). The witness is replayed on the
+implementation by the harness (oracle class `marker-outside-span-dropped`). -/
+
+/-- what position `x` contributes according to the specification -/
+def specAt (data : List UInt8) (hr : List HashRange) (x : Nat) : List UInt8 :=
+  (List.replicate (markerCopies data.length hr x) (be64 x)).flatten ++
+    (if included data.length hr x then byteAt data x else [])
+
+theorem exclSpec_split (data : List UInt8) (hr : List HashRange) (x : Nat) (hx : x < data.length) :
+    exclSpec data hr = (List.range x).flatMap (specAt data hr) ++ specAt data hr x ++
+      (List.range' (x + 1) (data.length - (x + 1))).flatMap (specAt data hr) := by
+  have e1 : List.range data.length = List.range' 0 x ++ List.range' (0 + x) (data.length - x) := by
+    rw [List.range_eq_range']; exact range'_split 0 data.length x (by omega)
+  have e2 : data.length - x = (data.length - (x + 1)) + 1 := by omega
+  show (List.range data.length).flatMap (specAt data hr) = _
+  rw [e1, e2, List.range'_succ, List.flatMap_append, List.flatMap_cons, ← List.range_eq_range',
+    Nat.zero_add, List.append_assoc]
+
+/-- **A marker in the hashed span contributes at its position**: for a marker offset `x` inside
+the stream that is hashed or lies strictly between hashed bytes, the absorbed string is the
+contributions of the positions `< x`, then the 8-byte big-endian `x`, then the rest. -/
+theorem marker_contributes (alg : String) (data : List UInt8) (hr : List HashRange) (buf : Nat)
+    (c : Option Nat) (abs : List UInt8) (prog : List (Nat × Nat)) (hne : hr ≠ [])
+    (h : hashModel alg data (some hr) true buf c = .ok abs prog) (x : Nat)
+    (hx : x < data.length) (hm : x ∈ markersOf hr) (hin : inSpan data.length hr x = true) :
+    ∃ post, abs = (List.range x).flatMap (specAt data hr) ++ be64 x ++ post := by
+  rw [excl_digest alg data hr buf c abs prog hne h, exclSpec_split data hr x hx]
+  have hpos : 1 ≤ markerCopies data.length hr x := by
+    unfold markerCopies
+    by_cases hi : included data.length hr x = true
+    · rw [if_pos hi]; exact List.count_pos_iff.2 hm
+    · rw [if_neg hi]
+      have hb : between data.length hr x = true := by
+        unfold inSpan at hin
+        have hi' : included data.length hr x = false := by simpa using hi
+        simpa [hi'] using hin
+      have hc : (markersOf hr).contains x = true := List.contains_iff_mem.2 hm
+      simp [hb, hc, hm]
+  obtain ⟨k, hk⟩ : ∃ k, markerCopies data.length hr x = k + 1 := ⟨_, (Nat.sub_add_cancel hpos).symm⟩
+  refine ⟨(List.replicate k (be64 x)).flatten ++
+    (if included data.length hr x then byteAt data x else []) ++
+    (List.range' (x + 1) (data.length - (x + 1))).flatMap (specAt data hr), ?_⟩
+  unfold specAt
+  rw [hk, List.replicate_succ, List.flatten_cons]
+  simp only [List.append_assoc]
+
+/-- a marker on an excluded position before the first hashed byte: **not hashed** (exclusion
+0..1, marker at 0 on ten bytes: only the bytes 2..9 are absorbed) -/
+theorem marker_outside_span_dropped :
+    hashModel "sha256" [10, 11, 12, 13, 14, 15, 16, 17, 18, 19]
+      (some [⟨0, 2, none⟩, ⟨0, 1, some 0⟩]) true 3 none =
+    .ok [12, 13, 14, 15, 16, 17, 18, 19] [(1, 3), (2, 3), (3, 3)] := by decide
+
+/-- … and one after the last hashed byte -/
+theorem marker_after_span_dropped :
+    hashModel "sha256" [10, 11, 12, 13, 14, 15, 16, 17, 18, 19]
+      (some [⟨8, 2, none⟩, ⟨9, 1, some 9⟩]) true 4 none =
+    .ok [10, 11, 12, 13, 14, 15, 16, 17] [(1, 2), (2, 2)] := by decide
+
+/-- The unconditional reading of "markers contribute their offsets at their positions": every
+marker offset inside the stream is hashed, inside the hashed span or not. -/
+def MarkersUnconditionalFull : Prop :=
+  ∀ (alg : String) (data : List UInt8) (hr : List HashRange) (buf : Nat) (c : Option Nat)
+    (abs : List UInt8) (prog : List (Nat × Nat)), hr ≠ [] → (markersOf hr).Nodup →
+    hashModel alg data (some hr) true buf c = .ok abs prog →
+    abs = (List.range data.length).flatMap fun x =>
+      (if x ∈ markersOf hr then be64 x else []) ++
+        (if included data.length hr x then byteAt data x else [])
+
+/-- the unconditional reading is false of the code: `marker_exact` (with `inSpan`) is the
+statement that holds -/
+theorem markers_unconditional_false : ¬ MarkersUnconditionalFull := by
+  intro hfull
+  have := hfull _ _ _ _ _ _ _ (by decide) (by decide) marker_outside_span_dropped
+  revert this
+  decide
+
+/-! ### thread creation fails -/
+
+/-- **Spawn failure is an error, never a panic or a wrong digest**: in an environment where
+`thread::Builder::spawn` fails, the outcome is that of the ordinary run (no range needed a
+second chunk) or `Err(IoError)`; it is never an arithmetic panic or non-termination, and a
+digest that is returned is the digest the ordinary run returns. -/
+theorem spawn_failure_safe (alg : String) (data : List UInt8) (hr : Option (List HashRange))
+    (isExcl : Bool) (buf : Nat) (c : Option Nat) (hlen : data.length ≤ u64Max) (hb : 0 < buf) :
+    (hashModelE false alg data hr isExcl buf c = hashModel alg data hr isExcl buf c ∨
+      ∃ prog, hashModelE false alg data hr isExcl buf c = .err .io prog) ∧
+    hashModelE false alg data hr isExcl buf c ≠ .panic .arith ∧
+    hashModelE false alg data hr isExcl buf c ≠ .panic .fuel ∧
+    ∀ abs prog, hashModelE false alg data hr isExcl buf c = .ok abs prog →
+      hashModel alg data hr isExcl buf c = .ok abs prog := by
+  have hf := hashModelE_false alg data hr isExcl buf c
+  obtain ⟨n1, n2, _⟩ := no_panic alg data hr isExcl buf c hlen hb
+  refine ⟨hf, ?_, ?_, ?_⟩
+  · rcases hf with h | ⟨p, h⟩ <;> rw [h]
+    · exact n1
+    · intro hh; cases hh
+  · rcases hf with h | ⟨p, h⟩ <;> rw [h]
+    · exact n2
+    · intro hh; cases hh
+  · intro abs prog h
+    rcases hf with h' | ⟨p, h'⟩
+    · rw [← h', h]
+    · rw [h'] at h; cases h
+
+/-- an I/O error can only come from a failed spawn (the stream itself is an in-memory
+`Cursor`; I/O errors of other streams are C35's subject) -/
+theorem io_error_only_when_spawn_fails (b : Bool) (alg : String) (data : List UInt8)
+    (hr : Option (List HashRange)) (isExcl : Bool) (buf : Nat) (c : Option Nat)
+    (hlen : data.length ≤ u64Max) (hb : 0 < buf) (p : List (Nat × Nat))
+    (h : hashModelE b alg data hr isExcl buf c = .err .io p) : b = false := by
+  cases b with
+  | false => rfl
+  | true =>
+    rw [hashModelE_true] at h
+    exact absurd h ((no_panic alg data hr isExcl buf c hlen hb).2.2 p)
+
+/-- ten bytes, chunk size 3, no worker threads: the first range needs a second chunk, the
+spawn fails after the first callback -/
+example : hashModelE false "sha256" [10, 11, 12, 13, 14, 15, 16, 17, 18, 19] none true 3 none =
+    .err .io [(1, 4)] := by decide
+/-- … chunk size 10: no worker is needed, the digest is returned -/
+example : hashModelE false "sha256" [10, 11, 12, 13, 14, 15, 16, 17, 18, 19] none true 10 none =
+    .ok [10, 11, 12, 13, 14, 15, 16, 17, 18, 19] [(1, 1)] := by decide
 
 /-! ### non-vacuity and the two repaired defects -/
 
@@ -511,6 +921,26 @@ example : hashModel "sha256" d10
 
 example : inclSpec d10 [⟨7, 3, some 5⟩, ⟨5, 1, none⟩, ⟨0, 0, none⟩] = [15] ++ be64 5 ++ [17, 18, 19] := by
   decide
+
+/-- the hypotheses of `excl_complete` / `incl_complete` / `accepted_of_within_input` are met by
+ordinary inputs: the bound is a small number -/
+example : callbackBound 10 (some [⟨9, 1, none⟩, ⟨2, 3, none⟩, ⟨3, 1, some 3⟩]) true 2 = 12 := by decide
+example : callbackBound 10 (some [⟨7, 3, some 5⟩, ⟨5, 1, none⟩]) false 2 = 14 := by decide
+example : callbackBound 4096 none true 268435456 = 1 := by decide
+
+/-- `excl_perm_invariant`: the same entries in two orders, different chunk sizes -/
+example : hashModel "sha256" d10 (some [⟨9, 1, none⟩, ⟨2, 3, none⟩, ⟨3, 1, some 3⟩]) true 2 none =
+    .ok ([10, 11] ++ be64 3 ++ [15, 16, 17, 18]) [(1, 4), (2, 4), (3, 4), (4, 4)] := by decide
+example : hashModel "sha256" d10 (some [⟨3, 1, some 3⟩, ⟨2, 3, none⟩, ⟨9, 1, none⟩]) true 7 none =
+    .ok ([10, 11] ++ be64 3 ++ [15, 16, 17, 18]) [(1, 3), (2, 3), (3, 3)] := by decide
+
+/-- `run_refines_pipeline` / `chunkLoop_refines_pipeline`: the chunks the loop reads for the
+range 2..9 with chunk size 3 after the entry chunk [12,13,14] -/
+example : loopChunks d10 3 8 5 5 = [[15, 16, 17], [18, 19]] := by decide
+
+/-- `cancel_beyond_count`: three callbacks, cancellation at the fourth never fires -/
+example : hashModel "sha256" d10 (some [⟨0, 2, none⟩]) true 3 (some 4) =
+    hashModel "sha256" d10 (some [⟨0, 2, none⟩]) true 3 none := by decide
 
 example : hashModel "sha256" d10 (some [⟨7, 3, some 5⟩, ⟨5, 1, none⟩, ⟨0, 0, none⟩]) false 2 (some 3) =
     .err .cancelled [(1, 4), (2, 4), (3, 4)] := by decide
